@@ -64,6 +64,8 @@ type searcher struct {
 	order         []string
 	recurse       bool
 	x             *Exec
+	stageA        []Violation // Stage A objection of the last otherwise acceptable linearisation
+	stageAFails   int
 }
 
 func newSearcher(x *Exec, wr *WatcherRec) *searcher {
@@ -226,6 +228,15 @@ func (s *searcher) dfs(rec int, done uint64, di int, dead bool, m *Model, trail 
 	D := s.wr.D
 	if rec == len(s.L) && allCalls {
 		if di == len(D) {
+			// Stage A under this linearisation: a linearisation is acceptable only
+			// if nothing was lost on the way into the library under it.
+			if s.x.S.Outcome == "" {
+				if va := stageA(s.x, s.wr, m, s.calls); len(va) > 0 {
+					s.stageA = va
+					s.stageAFails++
+					return false
+				}
+			}
 			s.final = m
 			s.order = append([]string(nil), trail...)
 			return true
@@ -276,14 +287,14 @@ func (s *searcher) dfs(rec int, done uint64, di int, dead bool, m *Model, trail 
 			}
 			droppable := s.firstCloseInv > 0 && s.upper[rec] >= s.firstCloseInv
 			if len(evs) == 0 {
-				if s.dfs(rec+1, done, di, false, mm, trail) {
+				if s.dfs(rec+1, done, di, false, mm, append(trail, fmt.Sprintf("rec%d", rec))) {
 					return true
 				}
 				continue
 			}
 			ev := evs[0]
 			if di < len(D) && evMatch(ev, D[di]) {
-				if s.dfs(rec+1, done, di+1, false, mm, trail) {
+				if s.dfs(rec+1, done, di+1, false, mm, append(trail, fmt.Sprintf("rec%d->ev%d", rec, di))) {
 					return true
 				}
 			} else if !ev.Optional && !droppable {
